@@ -501,6 +501,89 @@ theorem codec_supplies_record (st : Style) (ty : Nat) (rr : RR) (rtext : List Na
       (keptComment st rr) co rel zo gfix :=
   recOK_rdata st ty rr rtext co rel zo gfix h
 
+/-- non-vacuity of `read_write_lossless`: with `$ORIGIN`, `$TTL 300`, de-duplicated owners, a left-justified owner
+column, left/right-justified TTL/class/type columns and comments all switched on, the relativized zone
+`www 300 A 10.0.0.1 ;c / 10.0.0.2`, `www 60 TXT "hi"` under `ex.` meets every hypothesis (codecs: A and TXT instances),
+whether the reader is given the origin or takes it from `$ORIGIN`. -/
+example :
+    let zo : Name := [[101, 120], []]
+    let st : Style := { sorted := false, wantOrigin := true, defaultTTL := some 300, dedup := true, nameJust := -16,
+                        ttlJust := -6, classJust := 3, typeJust := -8, wantComments := true }
+    let z : ZoneMap := [([[119, 119, 119]],
+      [⟨1, 300, [⟨.a [10, 0, 0, 1], some [99]⟩, ⟨.a [10, 0, 0, 2], none⟩]⟩, ⟨16, 60, [⟨.txt [[104, 105]], none⟩]⟩])]
+    let rtextOf : RR → List Nat := fun rr => match rr.rd with
+      | .a addr => inetNtoa addr
+      | .txt ss => joinWith [32] (ss.map txtQuote)
+      | _ => []
+    let absOf : Name → Name := fun n => n ++ zo
+    let owOf : Name → List Nat := toText
+    Lossless (adjustStyle st (some zo) true) ∧
+    (∀ p ∈ writeOrder (adjustStyle st (some zo) true).sorted z,
+      nameToStyledText (adjustStyle st (some zo) true).toNameStyle p.1 = .ok (owOf p.1)) ∧
+    (∀ p ∈ writeOrder (adjustStyle st (some zo) true).sorted z, ∀ rds ∈ p.2, ∀ rr ∈ rds.rrs,
+      recordText (adjustStyle st (some zo) true) rr.rd = .ok (rtextOf rr)) ∧
+    ZoneWF (some []) (keptZone (adjustStyle st (some zo) true) (writeOrder (adjustStyle st (some zo) true).sorted z)) ∧
+    (∀ p ∈ writeOrder (adjustStyle st (some zo) true).sorted z, ∀ rds ∈ p.2, ∀ x ∈ rds.rrs,
+      RecOK (adjustStyle st (some zo) true) zo true true (owOf p.1) (absOf p.1) p.1 rds.ttl rds.rdtype x (rtextOf x)) := by
+  intro zo st z rtextOf absOf owOf
+  have hst : adjustStyle st (some zo) true = st := rfl
+  have hw : writeOrder st.sorted z = z := rfl
+  rw [hst, hw]
+  refine ⟨⟨rfl, rfl, by decide, by intro v h; cases h; decide⟩, ?_, ?_, ?_, ?_⟩
+  · intro p hp
+    simp only [z, List.mem_cons, List.mem_nil_iff, or_false] at hp
+    subst hp; rfl
+  · intro p hp rds hr rr hrr
+    simp only [z, List.mem_cons, List.mem_nil_iff, or_false] at hp
+    subst hp
+    simp at hr
+    rcases hr with rfl | rfl <;> simp at hrr
+    · rcases hrr with rfl | rfl <;> rfl
+    · subst hrr; rfl
+  · refine ⟨?_, ?_, ?_⟩
+    · intro p hp
+      simp only [keptZone, z, List.map_cons, List.map_nil, List.mem_cons, List.mem_nil_iff, or_false] at hp
+      subst hp
+      refine ⟨by simp, ?_, by simp, by simp [NodeOK]; decide⟩
+      intro r hr
+      simp at hr
+      rcases hr with rfl | rfl
+      · exact ⟨by simp, by decide, by decide⟩
+      · exact ⟨by simp, by simp, by decide⟩
+    · simp [keptZone, z]
+    · intro p hp r hr
+      simp only [keptZone, z, List.map_cons, List.map_nil, List.mem_cons, List.mem_nil_iff, or_false] at hp
+      subst hp
+      simp at hr
+      rcases hr with rfl | rfl <;> decide
+  · intro p hp rds hr x hx
+    simp only [z, List.mem_cons, List.mem_nil_iff, or_false] at hp
+    subst hp
+    obtain ⟨a1, a2, a3⟩ := toText_token [[119, 119, 119]] ⟨by decide, by decide, by decide⟩ (by unfold OctetsOk; decide)
+    have base : ∀ (ttl ty : Nat) (rr : RR) (rtext : List Nat), ttl ≤ Consts.maxTTL → TypeTokOK st ty →
+        RdataReads ty (padR (typeTok st ty) st.typeJust ++ (32 :: (rtext ++ (extraOf st rr ++ [10])))) rr.rd
+          (keptComment st rr) (some zo) true (some zo) true →
+        RecOK st zo true true (toText [[119, 119, 119]]) ([[119, 119, 119]] ++ zo) [[119, 119, 119]] ttl ty rr rtext :=
+      fun ttl ty rr rtext h1 h2 h3 => ⟨a1, a2, a3, rfl, rfl, rfl, h1, h2, h3⟩
+    have tyA : TypeTokOK st 1 := ⟨⟨by decide, by decide⟩, by decide, by decide, by decide⟩
+    have tyT : TypeTokOK st 16 := ⟨⟨by decide, by decide⟩, by decide, by decide, by decide⟩
+    simp at hr
+    rcases hr with rfl | rfl <;> simp at hx
+    · rcases hx with rfl | rfl
+      · apply base 300 1 _ _ (by decide) tyA
+        apply recOK_rdata
+        exact rdataReads_A_gen _ (inetNtoa [10, 0, 0, 1]) [10, 0, 0, 1] _ _ _ _ _ (typeGap_sep st 1).1 (typeGap_sep st 1).2
+          (by intro t ht; cases ht; decide) rfl (by decide) (by decide) rfl rfl
+      · apply base 300 1 _ _ (by decide) tyA
+        apply recOK_rdata
+        exact rdataReads_A_gen _ (inetNtoa [10, 0, 0, 2]) [10, 0, 0, 2] _ _ _ _ _ (typeGap_sep st 1).1 (typeGap_sep st 1).2
+          (by intro t ht; cases ht) rfl (by decide) (by decide) rfl rfl
+    · subst hx
+      apply base 60 16 _ _ (by decide) tyT
+      apply recOK_rdata
+      exact rdataReads_TXT _ [104, 105] [] _ _ _ _ _ (typeGap_sep st 16).1 (typeGap_sep st 16).2
+        (by intro t ht; cases ht) (by intro s hs; simp at hs; subst hs; exact ⟨by decide, by decide⟩)
+
 /-! ### D08 — `want_generic` (recorded finding; DESIGN §6)
 
 The property text lists "generic RFC 3597 syntax" among the lossless styles, and the working tree violates it
